@@ -578,7 +578,7 @@ pub fn run(cx: &mut Ctx) {
         }
     }
     // ---- generated seeds, their mutants, splices and bit flips
-    let n = cx.a.n(1_500, 120_000);
+    let n = cx.a.n(4_000, 200_000);
     for _ in 0..n {
         cx.case("generated_seed_mutants", |c| {
             c.sit("generated_seed_mutants");
